@@ -888,6 +888,34 @@ func simC03Laws(c *Ctx) {
 			}
 		}
 	}
+	if c.G(4) == 0 {
+		// sets whose members cannot be told apart by anything but their refinements, one of them stored twice (unknown
+		// members never coalesce): whatever raw equality says of two such sets, it says in both directions
+		mkU := func(k int) *VDesc {
+			u := &VDesc{T: tNumber, St: StUnknown}
+			switch k {
+			case 1:
+				u.Ref = &RefDesc{NotNull: true}
+			case 2:
+				u.Ref = &RefDesc{HasLo: true, Lo: NumDesc{Mode: NumParse, Text: "1"}, LoInc: true}
+			}
+			return u
+		}
+		a, b := mkU(c.G(3)), mkU(c.G(3))
+		first := len(pop)
+		for _, pair := range [][2]*VDesc{{a, a}, {a, b}, {b, a}, {b, b}} {
+			d := &VDesc{T: &TDesc{K: KSet, Elem: tNumber}, Elems: []*VDesc{pair[0], pair[1]}}
+			if pan := catch(func() { pop = append(pop, mixed{d, d.Build()}) }); pan != nil {
+				break
+			}
+		}
+		for x := first; x < len(pop); x++ {
+			for y := x + 1; y < len(pop); y++ {
+				forced = append(forced, [2]int{x, y})
+			}
+		}
+		c.Probe("c03.sets-of-indistinguishable-unknowns")
+	}
 	n = len(pop)
 	c.AddShape(fmt.Sprintf("laws base=%s n=%d", base, n))
 	for i := range pop {
